@@ -540,3 +540,52 @@ Definition paths_distinct (sep : str) (t : tree) : bool :=
 
 Definition prop_C18_g (t : tree) (verts edges : list (str * str)) : bool :=
   graph_vertices_ok (compact t) verts && graph_ids_distinct verts && graph_edges_ok (compact t) verts edges.
+
+(* ============================================================================================== *)
+(* 4. dot: attribute dictionaries.  Every vertex / edge carries exactly the attributes its own node
+      prescribes: the node's own style entry for a key when custom styles are requested and the node
+      has one, otherwise the default the options give for that key, and nothing else. *)
+
+(* the default for key k *)
+Definition node_default (o : dotopts) (k : str) : option str :=
+  if str_eqb k s_shape then given (do_node_shape o)
+  else if str_eqb k s_fillcolor then given (do_node_colour o)
+  else if str_eqb k s_style then (match given (do_node_colour o) with Some _ => Some s_filled | None => None end)
+  else None.
+Definition edge_default (o : dotopts) (k : str) : option str :=
+  if str_eqb k s_color then given (do_edge_colour o) else None.
+
+Definition prescribed (own : sdict) (default : str -> option str) (k : str) : option str :=
+  match slookup k own with Some v => Some v | None => default k end.
+
+(* [obs] has each key once, gives every key the prescribed value, and misses no prescribed key
+   ([keys] = the keys that can be prescribed at all) *)
+Definition dict_exact (own : sdict) (default : str -> option str) (keys : list str) (obs : sdict) : bool :=
+  nodup_str (map fst obs)
+  && forallb (fun kv => opt_eqb str_eqb (prescribed own default (fst kv)) (Some (snd kv))) obs
+  && forallb (fun k => match prescribed own default k with
+                       | Some _ => existsb (fun kv => str_eqb (fst kv) k) obs
+                       | None => true
+                       end) keys.
+
+Definition vertex_attrs_ok (o : dotopts) (x : tree) (obs : sdict) : bool :=
+  (* the label, and then the style *)
+  opt_eqb str_eqb (slookup s_label obs) (Some (tname x))
+  && dict_exact (if do_node_attr o then node_sty x else []) (node_default o)
+                ([s_shape; s_fillcolor; s_style] ++ map fst (node_sty x))
+                (filter (fun kv => negb (str_eqb (fst kv) s_label)) obs).
+Definition edge_attrs_ok (o : dotopts) (x : tree) (obs : sdict) : bool :=
+  dict_exact (if do_edge_attr o then edge_sty x else []) (edge_default o)
+             (s_color :: map fst (edge_sty x)) obs.
+
+(* vertices in pre-order, edges in pre-order of the child *)
+Definition prop_C18_attrs (o : dotopts) (t : tree) (vattrs eattrs : list sdict) : bool :=
+  all2 (vertex_attrs_ok o) (pre (compact t)) vattrs
+  && all2 (edge_attrs_ok o) (tl (pre (compact t))) eattrs.
+
+(* well-formed style dictionaries (what a Python dict guarantees: every key once) and no `label`
+   entry in a node style (pydot.Node would be given `label` twice: TypeError) *)
+Definition styles_wf (t : tree) : bool :=
+  forallb (fun x => nodup_str (map fst (node_sty x)) && nodup_str (map fst (edge_sty x))
+                    && negb (existsb (str_eqb s_label) (map fst (node_sty x))))
+          (pre (compact t)).
